@@ -18,7 +18,10 @@ def forall_range(lo, hi, body, var=None, pattern=None):
     """forall j. lo <= j < hi -> body(j); `pattern(j)` optionally fixes the instantiation trigger."""
     j = var if var is not None else z3.Int("j!q")
     if pattern is not None:
-        return z3.ForAll([j], z3.Implies(z3.And(lo <= j, j < hi), body(j)), patterns=[pattern(j)])
+        try:
+            return z3.ForAll([j], z3.Implies(z3.And(lo <= j, j < hi), body(j)), patterns=[pattern(j)])
+        except z3.Z3Exception:
+            pass  # e.g. the pattern term contains a lambda / ite: let the solver choose
     return z3.ForAll([j], z3.Implies(z3.And(lo <= j, j < hi), body(j)))
 
 
